@@ -300,7 +300,7 @@ PROPS['C18'] = {
     'bounded': {'wincon_write_reports_progress': 'the styled-run extractor replaced by a recording stand-in yielding 0-2 runs with arbitrary fg/bg colours and 1-2 byte texts; at most one misbehaving console call (any prefix, zero, Interrupted, Other)'},
     'rule': 'one case = one harness over all extractor answers (<= 2 runs) x all console scripts (<= 2 faults); non-trivial = verified with covers reached',
     'assumptions': ['modular: which runs the extractor yields for a given input (visible text in order, no escape byte, style in effect) is C02 + C07; here write/write_all are verified to hand over exactly the runs they are given',
-                    'write_all (retry loop: each run handed over exactly once, Interrupted retried, WriteZero) is NOT verified: its harnesses (wincon_write_all_plumbing, _single_run, _nonzero; kept in the source) do not finish in CBMC (> 15-30 min, 4-10 GB) in any shape tried, also not with the io::Error recursion limit',
+                    'write_all (retry loop: each run handed over exactly once, Interrupted retried, WriteZero) is NOT verified: its harnesses (wincon_write_all_plumbing, _single_run, _nonzero, _online — recording and online-checking consoles; kept in the source) do not finish in CBMC (> 15-30 min, 4-10 GB) in any shape tried, also not with the io::Error recursion limit',
                     'impl Write for WinconStream, write_fmt and write_vectored only compile on Windows and are not covered'],
     'explanation': 'The platform-independent functions of the console stream are extracted verbatim; cap_wincon_color is verified completely, `write` against an uninterpreted run extractor and a recording console whose every call may accept any prefix, nothing, or fail.',
 }
